@@ -197,7 +197,7 @@ def _unit(ctx, asgi):
     PRE_VALUES = {'acao': ['http://preset', '*', 'http://a'], 'acac': ['true', 'false'], 'acam': ['PRESET'], 'acah': ['X-PH'],
                   'acma': ['5'], 'aceh': ['X-P'], 'allow': ['GET, POST', 'GET', '']}
     try:
-        for ci in range(ctx.n(25000, 200000)):
+        for ci in range(ctx.n(40000, 200000)):
             kw, norm, desc = gen_config(rnd)
             ao, ac, ex = norm
             mw = falcon.CORSMiddleware(**kw)
@@ -474,7 +474,7 @@ def _apps(ctx, asgi):
                {'ACCESS-CONTROL-ALLOW-ORIGIN': 'http://preset', 'Access-Control-Allow-Credentials': 'true', 'Access-Control-Allow-Headers': 'X-PH'},
                {'X-Custom': 'c'}]
     try:
-        for ai in range(ctx.n(1300, 10000)):
+        for ai in range(ctx.n(2000, 10000)):
             kw, norm, desc = gen_config(rnd)
             arrangement = rnd.choice(['alone', 'alone', 'after', 'before', 'between', 'enable', 'enable+other'])
             indep = rnd.random() < 0.6
